@@ -461,6 +461,7 @@ def reusable(check, prog):
     # ... and what a result stores can be read back: dimension names stay str
     from . import c16
     c16.dimension_names(check, prog)
+    c16.save_dispatch(check, prog)       # the file save() writes is the one load() opens
     # lens theories incl. a fitted lens angle: the wrapper accepts a prior and
     # computes with the angle it has now
     from . import c08
